@@ -100,6 +100,7 @@ Arguments add_watch : simpl never.
 Arguments free_owner : simpl never.
 Arguments lookup : simpl never.
 Arguments upsert : simpl never.
+Arguments remove : simpl never.
 
 Section Proofs.
   Context {code : Type}.
@@ -1080,7 +1081,7 @@ Section Proofs.
   Lemma run_snoc w ss s : run w (ss ++ [s]) = run w ss ++ [(snd (do_step (final w ss) s), fst (do_step (final w ss) s))].
   Proof. rewrite run_app. cbn. destruct (do_step (final w ss) s); reflexivity. Qed.
 
-  Lemma final_snoc_pass w ss : final w (ss ++ [@SPass code]) = fst (pass (final w ss)).
+  Lemma final_snoc_pass w ss : final w (ss ++ [@SPass code]) = with_pending (fst (pass (final w ss))) false.
   Proof. rewrite final_app. unfold Template.final at 1. cbn. destruct (pass (final w ss)); reflexivity. Qed.
 
   (** quiescent_equals_render: in any history from any initial world, if the last step is a pass that
@@ -1095,7 +1096,7 @@ Section Proofs.
                      lookup k (w_store w) = Some o /\ o_data o = d /\ o_label o = true.
   Proof.
     intros wp w r Ht Hd He Hinv Hself. subst w. rewrite final_snoc_pass in *. fold wp in Hinv |- *.
-    destruct (pass wp) as [w' r'] eqn:Ep. cbn [fst snd] in *. subst r.
+    destruct (pass wp) as [w' r'] eqn:Ep. cbn [fst snd w_tmpl w_store w_env with_pending] in *. subst r.
     destruct (success_equals_render _ _ _ _ Ht Hd Ep He Hinv Hself) as (t' & k & d & o & H1 & H2 & H3 & H4 & H5 & _).
     exists t', k, d, o. auto.
   Qed.
@@ -1214,6 +1215,209 @@ Section Proofs.
     pose proof (tracks_sources _ _ _ _ Ht Hd Hp He Hinv) as Htr. rewrite Forall_forall in Htr.
     now apply tracked_change_enqueues; [apply Htr|].
   Qed.
+
+  (** ** Quiescence proper. The cache label is three-valued; only the exact value "True" makes an object
+      visible to the informers. After a successful pass in which every source exists, every source and the
+      target carry exactly that value and their kinds are watched ([calm]); so any edit or deletion of a
+      source (or of the target) enqueues the template. Contrapositive, over histories: if after such a pass
+      only source-level steps happen and no request is left in the queue, nothing the template depends on
+      has changed and the target still equals the render of the current sources. *)
+  Lemma o_label_true o : o_label o = true <-> o_lbl o = LTrue.
+  Proof. unfold o_label. destruct (o_lbl o); split; congruence. Qed.
+
+  Lemma scan_lookup_ext bad st st' tns srcs :
+    (forall s, In s srcs -> lookup (nkey (src_key tns s)) st' = lookup (nkey (src_key tns s)) st) ->
+    forall cfg retry, scan bad st' tns srcs cfg retry = scan bad st tns srcs cfg retry.
+  Proof.
+    induction srcs as [|s r IH]; intros H cfg retry; cbn; [reflexivity|].
+    destruct (bad s); [reflexivity|]. rewrite (H s (or_introl eq_refl)).
+    destruct (lookup (nkey (src_key tns s)) st).
+    - destruct (copy_items (s_items s) o cfg); [|reflexivity]. apply IH. intros; apply H; now right.
+    - destruct (s_opt s); [|reflexivity]. apply IH. intros; apply H; now right.
+  Qed.
+
+  Definition calm (w : world) : Prop :=
+    exists t k d o,
+      w_tmpl w = Some t /\ t_del t = false /\
+      expected t (w_store w) (w_env w) = Some (k, d) /\ (forall s, In s (t_sources t) -> nkey (src_key (t_ns t) s) <> k) /\
+      lookup k (w_store w) = Some o /\ o_data o = d /\ o_label o = true /\ admitted k /\ o_conds o = [] /\
+      Forall (tracked (t_ns t) w) (t_sources t) /\
+      (forall s, In s (t_sources t) -> lookup (nkey (src_key (t_ns t) s)) (w_store w) <> None) /\
+      watched (k_kind k) me (w_watch w) = true.
+
+  Lemma calm_settled w : calm w -> settled w.
+  Proof. intros (t & k & d & o & H). exists t, k, d, o. tauto. Qed.
+
+  (** in a calm world every source and the target carry the label with the exact value "True" *)
+  Lemma calm_labels w : calm w ->
+    exists t k o, w_tmpl w = Some t /\ lookup k (w_store w) = Some o /\ o_lbl o = LTrue /\
+      forall s, In s (t_sources t) -> exists os, lookup (nkey (src_key (t_ns t) s)) (w_store w) = Some os /\ o_lbl os = LTrue.
+  Proof.
+    intros (t & k & d & o & Ht & _ & _ & _ & Hlk & _ & Hl & _ & _ & Htr & Hex & _). exists t, k, o.
+    repeat split; auto; [now apply o_label_true|]. intros s Hs. rewrite Forall_forall in Htr. destruct (Htr s Hs) as [_ H2].
+    specialize (Hex s Hs). destruct (lookup (nkey (src_key (t_ns t) s)) (w_store w)) as [os|]; [|contradiction].
+    exists os. split; [reflexivity|now apply o_label_true].
+  Qed.
+
+  Lemma calm_transport w w' :
+    w_tmpl w' = w_tmpl w -> w_env w' = w_env w -> w_watch w' = w_watch w ->
+    (forall t k, w_tmpl w = Some t -> (k = k \/ True) ->
+       forall q, (q = k \/ exists s, In s (t_sources t) /\ q = nkey (src_key (t_ns t) s)) -> True) ->
+    calm w ->
+    (forall t, w_tmpl w = Some t -> forall s, In s (t_sources t) ->
+       lookup (nkey (src_key (t_ns t) s)) (w_store w') = lookup (nkey (src_key (t_ns t) s)) (w_store w)) ->
+    (forall t k d, w_tmpl w = Some t -> expected t (w_store w) (w_env w) = Some (k, d) -> lookup k (w_store w') = lookup k (w_store w)) ->
+    calm w'.
+  Proof.
+    intros Et Ee Ew _ (t & k & d & o & Ht & Hd & Hex & Hself & Hlk & Hod & Hol & Hadm & Hoc & Htr & Hall & Hwk) Hsrc Htgt.
+    exists t, k, d, o. rewrite Et, Ee, Ew. repeat split; auto.
+    - unfold Template.expected in *. rewrite (scan_lookup_ext _ _ _ _ _ (Hsrc t Ht)). exact Hex.
+    - rewrite (Htgt t k d Ht Hex). exact Hlk.
+    - rewrite Forall_forall in *. intros s Hs. destruct (Htr s Hs) as [H1 H2]. split; [now rewrite Ew|]. now rewrite (Hsrc t Ht s Hs).
+    - intros s Hs. rewrite (Hsrc t Ht s Hs). now apply Hall.
+  Qed.
+
+  Lemma calm_with_pending w b : calm w -> calm (with_pending w b).
+  Proof. intros H. exact H. Qed.
+
+  (** a source-level step that does not enqueue the template leaves a calm world calm *)
+  Lemma calm_quiet_step w s w' : calm w ->
+    (exists k d l, s = @SPut code k d l) \/ (exists k, s = @SDel code k) ->
+    do_step w s = (w', OEnq false) -> calm w'.
+  Proof.
+    intros Hc Hs Hstep. pose proof Hc as (t & k & d & o & Ht & Hd & Hex & Hself & Hlk & Hod & Hol & Hadm & Hoc & Htr & Hall & Hwk).
+    rewrite Forall_forall in Htr.
+    (* the key the step touches, the store after it, and the fact that a real change of a tracked key would have enqueued *)
+    assert (Hgen : forall k0 st', 
+              (forall q, q <> k0 -> lookup q st' = lookup q (w_store w)) ->
+              (forall o0, lookup k0 (w_store w) = Some o0 -> o_label o0 && watched (k_kind k0) me (w_watch w) = false) ->
+              (lookup k0 (w_store w) = None -> True) ->
+              calm (with_pending (with_store w st') (w_pending w || false))).
+    { intros k0 st' Hoth Hnoenq _. apply calm_with_pending.
+      assert (Hk0src : forall s0, In s0 (t_sources t) -> nkey (src_key (t_ns t) s0) <> k0).
+      { intros s0 Hs0 E. destruct (Htr s0 Hs0) as [H1 H2]. pose proof (Hall s0 Hs0) as Hne.
+        destruct (lookup (nkey (src_key (t_ns t) s0)) (w_store w)) as [os|] eqn:El; [|contradiction].
+        rewrite E in El. specialize (Hnoenq os El). rewrite <- E, nkey_kind in Hnoenq.
+        change (k_kind (src_key (t_ns t) s0)) with (s_kind s0) in Hnoenq. rewrite H1, H2 in Hnoenq. discriminate. }
+      assert (Hk0tgt : k <> k0).
+      { intros E. subst k0. specialize (Hnoenq o Hlk). rewrite Hol, Hwk in Hnoenq. discriminate. }
+      apply (calm_transport w); auto.
+      - intros t1 Ht1 s0 Hs0. cbn. rewrite Ht in Ht1. injection Ht1 as <-. apply Hoth. now apply Hk0src.
+      - intros t1 k1 d1 Ht1 Hex1. cbn. rewrite Ht in Ht1. injection Ht1 as <-. rewrite Hex in Hex1. injection Hex1 as <- <-.
+        now apply Hoth. }
+    destruct Hs as [(k0 & d0 & l0 & ->)|(k0 & ->)]; cbn [Template.do_step] in Hstep; unfold note in Hstep.
+    - destruct (lookup k0 (w_store w)) as [o0|] eqn:El.
+      + destruct (data_eqb (o_data o0) d0) eqn:Ed.
+        * injection Hstep as <-. now apply calm_with_pending.
+        * injection Hstep as <- Hb. unfold Template.enqueued in Hb.
+          apply (Hgen k0); auto.
+          -- intros q Hq. cbn. now apply lookup_upsert_other.
+          -- intros o1 Ho1. rewrite El in Ho1. injection Ho1 as <-. exact Hb.
+      + (* creation: the key is none of the template's (they all exist) *)
+        injection Hstep as <- Hb. apply (Hgen k0); auto.
+        * intros q Hq. cbn. now apply lookup_upsert_other.
+        * intros o1 Ho1. rewrite El in Ho1. discriminate.
+    - destruct (lookup k0 (w_store w)) as [o0|] eqn:El.
+      + remember (remove k0 (w_store w)) as st' eqn:Est in Hstep.
+        injection Hstep as <- Hb. unfold Template.enqueued in Hb. apply (Hgen k0); auto.
+        * intros q Hq. cbn [w_store with_store]. subst st'. rewrite lookup_remove. apply key_eqb_neq in Hq. now rewrite Hq.
+        * intros o1 Ho1. rewrite El in Ho1. injection Ho1 as <-. exact Hb.
+      + injection Hstep as <-. now apply calm_with_pending.
+  Qed.
+
+  (** A suffix of source-level steps during which the worker finds nothing to do. *)
+  Fixpoint quiet_run (w : world) (ss : list (step code)) : Prop :=
+    match ss with
+    | [] => True
+    | s :: r =>
+        match s with
+        | SPut _ _ _ | SDel _ => True
+        | SDrain => w_pending w = false
+        | _ => False
+        end /\ quiet_run (fst (do_step w s)) r
+    end.
+
+  Lemma quiet_pending_mono ss : forall w, quiet_run w ss -> w_pending w = true -> w_pending (final w ss) = true.
+  Proof.
+    induction ss as [|s r IH]; intros w Hq Hp; [exact Hp|]. destruct Hq as [Hs Hr].
+    change (final w (s :: r)) with (final (fst (do_step w s)) r). apply IH; [exact Hr|].
+    destruct s; try contradiction; cbn [Template.do_step]; unfold note.
+    - destruct (lookup k (w_store w)); [destruct (data_eqb (o_data o) d)|]; cbn; now rewrite Hp.
+    - destruct (lookup k (w_store w)); cbn; now rewrite Hp.
+    - congruence.
+  Qed.
+
+  Theorem calm_quiet_suffix ss : forall w, calm w -> quiet_run w ss -> w_pending (final w ss) = false -> calm (final w ss).
+  Proof.
+    induction ss as [|s r IH]; intros w Hc Hq Hp; [exact Hc|]. destruct Hq as [Hs Hr].
+    change (final w (s :: r)) with (final (fst (do_step w s)) r) in *.
+    assert (Hp1 : w_pending (fst (do_step w s)) = false).
+    { destruct (w_pending (fst (do_step w s))) eqn:E; [|reflexivity]. rewrite (quiet_pending_mono r _ Hr E) in Hp. discriminate. }
+    apply IH; auto.
+    destruct s; try contradiction.
+    - destruct (do_step w (SPut k d lbl)) as [w1 o1] eqn:Es. cbn [fst] in *.
+      assert (o1 = OEnq false).
+      { cbn [Template.do_step] in Es. unfold note in Es.
+        destruct (lookup k (w_store w)); [destruct (data_eqb (o_data o) d)|]; injection Es as <- <-; cbn in Hp1;
+          apply orb_false_iff in Hp1; destruct Hp1 as [_ H]; rewrite ?H; reflexivity. }
+      subst o1. apply (calm_quiet_step w (SPut k d lbl)); [assumption|left; eauto|exact Es].
+    - destruct (do_step w (SDel k)) as [w1 o1] eqn:Es. cbn [fst] in *.
+      assert (o1 = OEnq false).
+      { cbn [Template.do_step] in Es. unfold note in Es.
+        destruct (lookup k (w_store w)); injection Es as <- <-; cbn in Hp1;
+          apply orb_false_iff in Hp1; destruct Hp1 as [_ H]; rewrite ?H; reflexivity. }
+      subst o1. apply (calm_quiet_step w (SDel k)); [assumption|right; eauto|exact Es].
+    - cbn [Template.do_step]. rewrite Hs. exact Hc.
+  Qed.
+
+  (** A successful pass in which every source exists establishes [calm]. *)
+  Theorem success_calms w t w' r : w_tmpl w = Some t -> t_del t = false -> pass w = (w', r) ->
+    p_err r = 0 -> (exists t', w_tmpl w' = Some t' /\ t_invalid t' = 0) ->
+    (forall k d, In (k, d) (target_writes (p_evs r)) -> forall s, In s (t_sources t) -> nkey (src_key (t_ns t) s) <> k) ->
+    (forall s, In s (t_sources t) -> lookup (nkey (src_key (t_ns t) s)) (w_store w') <> None) ->
+    calm w'.
+  Proof.
+    intros Ht Hd Hp He Hinv Hself Hall.
+    destruct (success_settles _ _ _ _ Ht Hd Hp He Hinv Hself) as (t' & k & d & o & H1 & H2 & H3 & H4 & H5 & H6 & H7 & H8 & H9).
+    pose proof (tracks_sources _ _ _ _ Ht Hd Hp He Hinv) as Htr.
+    destruct (pass_table _ _ _ _ Ht Hd Hp) as (st1 & _ & _ & _ & _ & _ & (t2 & Ht2 & Hspec) & Hcase).
+    rewrite H1 in Ht2. injection Ht2 as <-. destruct Hspec as (Ens & Esrc & _).
+    exists t', k, d, o. rewrite <- Ens, <- Esrc. repeat split; auto.
+    - now rewrite Ens, Esrc.
+    - destruct (success_equals_render _ _ _ _ Ht Hd Hp He Hinv Hself) as (tx & kx & dx & ox & X1 & X2 & _ & _ & _ & X6).
+      rewrite H1 in X1. injection X1 as <-. rewrite H3 in X2. injection X2 as <- <-.
+      destruct Hcase as
+        [(_ & Hwr & _)
+        |(cfg1 & retry1 & _ & _ & _ &
+           [(_ & Hwr & _) | [(_ & Hwr & _) | [(_ & Hwr & _)
+           | [(kk & bb & oo & _ & Hwr & _ & _ & _ & _ & _ & Hwk & _)
+             | (kk & bb & _ & Hwr & _)]]]])]; rewrite X6 in Hwr; try discriminate.
+      injection Hwr as <- <-. exact Hwk.
+  Qed.
+
+  (** quiescent_equals_render over histories with a quiet suffix: a successful pass in which every source
+      exists, then any number of source creations / edits / deletions and idle worker steps; if no request is
+      pending at the end, the target equals the template rendered with the sources as they are at the end. *)
+  Theorem quiescent_after_quiet_suffix w0 ss suffix t :
+    let wp := final w0 ss in let r := snd (pass wp) in let w1 := with_pending (fst (pass wp)) false in
+    w_tmpl wp = Some t -> t_del t = false -> p_err r = 0 -> (exists t', w_tmpl w1 = Some t' /\ t_invalid t' = 0) ->
+    (forall k d, In (k, d) (target_writes (p_evs r)) -> forall s, In s (t_sources t) -> nkey (src_key (t_ns t) s) <> k) ->
+    (forall s, In s (t_sources t) -> lookup (nkey (src_key (t_ns t) s)) (w_store w1) <> None) ->
+    quiet_run w1 suffix ->
+    let w := final w0 (ss ++ [@SPass code] ++ suffix) in
+    w_pending w = false ->
+    exists t' k d o, w_tmpl w = Some t' /\ expected t' (w_store w) (w_env w) = Some (k, d) /\
+                     lookup k (w_store w) = Some o /\ o_data o = d /\ o_lbl o = LTrue.
+  Proof.
+    intros wp r w1 Ht Hd He Hinv Hself Hall Hq w Hp. subst w.
+    rewrite final_app, final_app in *. fold wp in Hp |- *.
+    assert (E1 : final wp [@SPass code] = w1).
+    { unfold Template.final. cbn. subst w1. destruct (pass wp); reflexivity. }
+    rewrite E1 in *. subst w1 r. destruct (pass wp) as [w' r'] eqn:Ep. cbn [fst snd w_tmpl w_store with_pending] in *.
+    pose proof (success_calms _ _ _ _ Ht Hd Ep He Hinv Hself Hall) as Hc.
+    pose proof (calm_quiet_suffix suffix _ (calm_with_pending _ false Hc) Hq Hp) as (t' & k & d & o & H).
+    exists t', k, d, o. repeat split; try tauto. apply o_label_true. tauto.
+  Qed.
 End Proofs.
 
 (** * History of the namespace clause. Against the namespace check as it was before aa47ee3
@@ -1226,16 +1430,16 @@ Module Witness.
   Definition scope (k : N) : option bool := if k =? 3 then Some false else Some true.   (* kind 3 is cluster-scoped *)
   Definition render_cm (_ : unit) (cfg : data) (_ : N) : rres := RObj (1, 0, 100) cfg false.
   Definition render_cluster (_ : unit) (cfg : data) (_ : N) : rres := RObj (3, 1, 100) cfg false.
-  Definition thing : obj := {| o_data := [(1, 7)]; o_label := false; o_ctrl := 0; o_gen := 1; o_sobs := None; o_conds := [] |}.
-  Definition cm : obj := {| o_data := [(1, 5)]; o_label := false; o_ctrl := 0; o_gen := 1; o_sobs := None; o_conds := [] |}.
+  Definition thing : obj := {| o_data := [(1, 7)]; o_lbl := LAbsent; o_ctrl := 0; o_gen := 1; o_sobs := None; o_conds := [] |}.
+  Definition cm : obj := {| o_data := [(1, 5)]; o_lbl := LAbsent; o_ctrl := 0; o_gen := 1; o_sobs := None; o_conds := [] |}.
   Definition tm (srcs : list source) : tmpl unit :=
     {| t_ns := 1; t_sources := srcs; t_code := tt; t_gen := 1; t_fin := false; t_del := false; t_invalid := 0;
        t_conds := []; t_ctrlof := None |}.
   (** a namespaced template in namespace 1 whose source is the cluster-scoped object 3/-/1, written as 3/1/1 *)
   Definition src_cluster : source := {| s_kind := 3; s_ns := 1; s_name := 1; s_opt := false; s_items := [(1, 1)] |}.
   Definition src_cm : source := {| s_kind := 1; s_ns := 0; s_name := 1; s_opt := false; s_items := [(1, 1)] |}.
-  Definition w_src : world unit := {| w_store := [((3, 0, 1), thing)]; w_tmpl := Some (tm [src_cluster]); w_watch := []; w_env := 0 |}.
-  Definition w_tgt : world unit := {| w_store := [((1, 1, 1), cm)]; w_tmpl := Some (tm [src_cm]); w_watch := []; w_env := 0 |}.
+  Definition w_src : world unit := {| w_store := [((3, 0, 1), thing)]; w_tmpl := Some (tm [src_cluster]); w_watch := []; w_env := 0; w_pending := false |}.
+  Definition w_tgt : world unit := {| w_store := [((1, 1, 1), cm)]; w_tmpl := Some (tm [src_cm]); w_watch := []; w_env := 0; w_pending := false |}.
 End Witness.
 
 Theorem v0_namespace_bound_refuted :
